@@ -459,7 +459,7 @@ def a_toeplitz(rng: Any, s: Any) -> Any:
     batch = ()
     if len(s.shape) > 1 and rng.integers(2):
         batch = pick(rng, [s.shape[:-1], (1,) * (len(s.shape) - 1), s.shape[-2:-1]])
-    band = dy(rng, tuple(batch) + (k,), dt)
+    band = dy(rng, tuple(batch) + (k,), dt if not (X64 and rng.integers(3) == 0) else np.float32)   # never wider than the data
     method = pick(rng, ['dense', 'direct', 'fft', 'overlap_save'])
     if X64 and method in ('overlap_save',) and np.dtype(dt).itemsize < 8:
         method = 'direct'  # kept out: see DESIGN §5-D4 (judged in C09, not through composites)
